@@ -116,9 +116,9 @@ Fixpoint ai_has_family (af : Z) (nodes : list ai_node) : bool :=
 Definition default_loopback_addrs (af port : Z) (nodes : list ai_node) : list ai_node :=
   let nodes :=
       if ((af =? LEG_AF_UNSPEC) || (af =? LEG_AF_INET6)) && negb (ai_has_family LEG_AF_INET6 nodes)
-      then nodes ++ [mkNode LEG_AF_INET6 loopback6 port (to_int 0)] else nodes in
+      then nodes ++ [mkNode LEG_AF_INET6 loopback6 port (ttl_to_int 0)] else nodes in
   if ((af =? LEG_AF_UNSPEC) || (af =? LEG_AF_INET)) && negb (ai_has_family LEG_AF_INET nodes)
-  then nodes ++ [mkNode LEG_AF_INET loopback4 port (to_int 0)] else nodes.
+  then nodes ++ [mkNode LEG_AF_INET loopback4 port (ttl_to_int 0)] else nodes.
 
 Definition addrinfo_localhost (name : str) (port : Z) (hint_family : Z) (ai : addrinfo) : Z * addrinfo :=
   if negb ((hint_family =? LEG_AF_INET) || (hint_family =? LEG_AF_INET6) || (hint_family =? LEG_AF_UNSPEC))
